@@ -12,6 +12,7 @@ import (
 	"math/rand"
 	"os"
 	"sort"
+	"strconv"
 	"strings"
 	"time"
 
@@ -407,7 +408,18 @@ func renderRuleRecord(t ruleTuple, n int, variant int) (line string, want map[st
 // ruleTokens: the words of a rule text, with list punctuation removed.
 func ruleTokens(raw string) []string {
 	s := strings.NewReplacer("(", " ", ")", " ", ",", " ", "=", " ", "\"", " ").Replace(raw)
-	return strings.Fields(s)
+	return asciiToks(strings.Fields(s))
+}
+
+// asciiToks writes the non-ASCII characters of a token as \uXXXX escapes: the trace is read by TLC in the
+// platform's character set, in which two different non-ASCII letters may become the same replacement character
+func asciiToks(ts []string) []string {
+	out := make([]string, len(ts))
+	for i, t := range ts {
+		q := strconv.QuoteToASCII(t)
+		out[i] = q[1 : len(q)-1]
+	}
+	return out
 }
 
 func checkC16(e *Env, r *Report) {
@@ -532,6 +544,9 @@ func checkC16(e *Env, r *Report) {
 			if pd.hist != "" {
 				id = pd.hist + "|" + pd.t.Mask + "|" + pd.name
 			}
+			if ts, isList := pd.want["tokens"].([]string); isList {
+				pd.want["tokens"] = asciiToks(ts)
+			}
 			recs = append(recs, map[string]any{"ev": "cover", "id": id, "want": pd.want, "rules": rules})
 		}
 		batch, pend = nil, nil
@@ -654,6 +669,14 @@ func checkC16(e *Env, r *Report) {
 			{"capability", `operation="capable" class="cap" profile="%[1]s" pid=%[2]d comm="cmd" capability=12 capname="%[3]s"`, "net_admin", "sys_admin", []string{}},
 			{"network", `operation="create" class="net" profile="%[1]s" pid=%[2]d comm="cmd" family="%[3]s" sock_type="dgram" protocol=17 requested_mask="create" denied_mask="create"`, "inet", "inet6", []string{"dgram"}},
 		}
+		// values of equal length that differ only in bytes the rule order gives no weight to (non-ASCII letters):
+		// "compare equal" may not be taken for "identical" when duplicates are removed
+		nbs = append(nbs,
+			nb{"signal", nbs[2].tmpl, "peer-caf\u00e9", "peer-caf\u00e8", []string{"send", "term"}},
+			nb{"unix", nbs[0].tmpl, "@/tmp/\u6587\u4ef6/a", "@/tmp/\u6587\u4ef7/a", []string{"bind", "stream"}},
+			nb{"mount", nbs[6].tmpl, "/dev/disk/by-label/\u00fcber", "/dev/disk/by-label/\u00f6ber", []string{"ext4", "/mnt/point/"}},
+			nb{"dbus", nbs[4].tmpl, "Do\u00e9", "Do\u00e8", []string{"send", "session"}},
+		)
 		for ni, x := range nbs {
 			for order := 0; order < 2; order++ {
 				prof := "nb" + lettersOf(ni*2+order+1)
